@@ -4,6 +4,7 @@ expressions and shape-compatible mappings of coefficients/constants/arguments; o
 mapped terminals' values replaced by the images' values (through the denotational eval), rejection of shape-changing mappings,
 identity on expressions without mapped terminals."""
 import random, itertools
+from fractions import Fraction
 import common
 from common import Prop, Witness, Failure
 import uflio, gen, leandrv
@@ -141,7 +142,111 @@ class C21(Prop):
         ev.cov["samples"] = [dict(expr=str(e)[:120], mapping={str(t): str(i)[:60] for t, i in m.items()}, result=str(r)[:120]) for (k, e, m, r, impl) in meta[:3]]
         return fails
 
+    def deriv_oracle(self, ctx, ev):
+        """replace under derivative operators: replace(D(.. f ..), {f: img}) must have the shape of the input and the value of D(.. img ..)
+        built directly (both evaluated after derivative expansion, fields given as callables with random jets)."""
+        import ufl
+        from ufl.algorithms import replace
+        rng = random.Random(ctx.seed * 3331 + 2121)
+        n = 60 if ctx.quick else 1200
+        nchk = 0
+        for k in range(n):
+            g = rng.choice([2, 3])
+            G = gen.Gen(rng, gdim=g, compound=False, math=False)
+            sh = rng.choice([(), (2,), (3,), (g,), (2, 2), (2, 3), (3, 2)])
+            if sh not in G.coeffs:
+                continue
+            f = G.coeffs[sh][0]
+            kind = rng.choice(["coeff", "coeff", "const", "literal", "expr", "zero"])
+            if kind == "coeff":
+                others = [c for c in G.coeffs[sh] if c is not f] or [ufl.Coefficient(f.ufl_function_space())]
+                img = others[0]
+            elif kind == "const":
+                img = ufl.Constant(G.mesh, sh) if sh else ufl.Constant(G.mesh)
+            elif kind == "literal":
+                def lit(s):
+                    return [lit(s[1:]) for _ in range(s[0])] if s else rng.choice([1, 2, 0.5, -3])
+                img = ufl.as_tensor(lit(sh)) if sh else ufl.as_ufl(rng.choice([2, 0.5]))
+            elif kind == "zero":
+                img = ufl.zero(*sh) if sh else ufl.as_ufl(0)
+            else:
+                h = ufl.Coefficient(f.ufl_function_space())
+                img = 2 * h + (ufl.Constant(G.mesh, sh) if sh else ufl.Constant(G.mesh))
+            ops = [("grad", ufl.grad), ("nabla_grad", ufl.nabla_grad)]
+            if sh and sh[-1] == g:
+                ops.append(("div", ufl.div))
+            if sh and sh[0] == g:
+                ops.append(("nabla_div", ufl.nabla_div))
+            if sh in ((), (2,)) and g == 2 or sh == (3,) and g == 3:
+                ops.append(("curl", ufl.curl))
+            ops.append(("dx", lambda a: a.dx(rng.randrange(g))))
+            name, D = rng.choice(ops)
+            wrap = rng.choice(["plain", "restricted", "variable", "scaled", "twice"])
+            def build(a):
+                e = D(a)
+                if wrap == "restricted":
+                    e = e("+")
+                elif wrap == "variable":
+                    e = ufl.variable(e)
+                elif wrap == "scaled":
+                    e = 3 * e + e
+                elif wrap == "twice" and name in ("grad", "nabla_grad"):
+                    e = D(e)
+                return e
+            st = rng.getstate()
+            try:
+                e = build(f)
+            except Exception:  # noqa
+                continue
+            rng.setstate(st)
+            try:
+                direct = build(img)
+            except Exception:  # noqa
+                continue
+            desc = "%s(%s of shape %s) [%s] with image kind %s on a %dD mesh" % (name, "f", list(sh), wrap, kind, g)
+            try:
+                r = replace(e, {f: img})
+            except Exception as ex:  # noqa
+                self.bad.append(("replace under a derivative raises %s" % type(ex).__name__, dict(kind="deriv-raise:" + name, expr=desc)))
+                continue
+            nchk += 1
+            if tuple(r.ufl_shape) != tuple(e.ufl_shape):
+                self.bad.append(("replace changed the shape from %s to %s" % (tuple(e.ufl_shape), tuple(r.ufl_shape)), dict(kind="deriv-shape:" + name, expr=desc)))
+                continue
+            # values: every coefficient is a callable with random jets (constants: plain values, zero derivatives)
+            jets = {}
+            def mk(t):
+                def fn(x, derivatives=()):
+                    key = (id(t), tuple(sorted(derivatives)))
+                    if key not in jets:
+                        def rnd(s):
+                            return tuple(rnd(s[1:]) for _ in range(s[0])) if s else Fraction(rng.randint(-4, 4), rng.choice([1, 2]))
+                        jets[key] = rnd(tuple(t.ufl_shape))
+                    return jets[key]
+                return fn
+            from ufl.algorithms.analysis import extract_type
+            m = {}
+            for ex_ in (r, direct):
+                for t in extract_type(ex_, ufl.classes.Coefficient):
+                    m.setdefault(t, mk(t))
+                for t in extract_type(ex_, ufl.classes.Constant):
+                    def rnd(s):
+                        return tuple(rnd(s[1:]) for _ in range(s[0])) if s else Fraction(rng.randint(-4, 4), 1)
+                    m.setdefault(t, rnd(tuple(t.ufl_shape)))
+            x = tuple(Fraction(1, 3) for _ in range(g))
+            try:
+                from ufl.algorithms.apply_restrictions import apply_restrictions  # noqa
+                strip = lambda z: z
+                vr = [strip(r)(x, m, c) for c in itertools.product(*[range(d) for d in r.ufl_shape])]
+                vd = [strip(direct)(x, m, c) for c in itertools.product(*[range(d) for d in direct.ufl_shape])]
+            except Exception:  # noqa     (restricted expressions cannot be point-evaluated: shape check only)
+                continue
+            if any(abs(float(a) - float(b)) > 1e-9 * max(1.0, abs(float(b))) for a, b in zip(vr, vd)):
+                self.bad.append(("replace(D(f), {f: img}) evaluates to %s, D(img) to %s" % (vr[:3], vd[:3]), dict(kind="deriv-value:" + name, expr=desc)))
+        ev.cov["derivative_replace_checks"] = nchk
+
     def oracle(self, ctx, ev):
+        self.deriv_oracle(ctx, ev)
         out, seen = [], set()
         for w, d in getattr(self, "bad", []):
             if d["kind"] in seen:
